@@ -303,6 +303,8 @@ def main(rep, tier):
     rep.configs.append({"features": "async,http", "profile": "debug", "bodies": len(f.bodies)})
     check.guard(rep, "R18", run, f)
     rep.floor("R18", "rule instances", len([i for i in rep.instances if i["status"] == "ok"]), 14)
+    import check as _c
+    _c.witnesses(rep, "C18", f)
     return rep.finish(
         "Finite tables (per-role stream lists, next-stream table, stream-type predicates) compared with each other and the specification; "
         "decision table of set_stream; stream rows of the header dispatch; writers of the active-stream field; use of the verdict in the async layer.",
